@@ -146,6 +146,36 @@ def _python_engine(txts, cits, m, by_name=False):
         return compat.pybtex_error_kind(e)
 
 
+def _style_whole(txts, cits, m, by_name=False):
+    """the Python engine's front end on a database READ WHOLE: `style.format_bibliography(bib_data, citations)` -- the
+    selection the property describes, made after reading (the engine entry points read with wanted_entries=citations,
+    which hides what this function does with the citation list, e.g. with an empty one)"""
+    import io
+    from pybtex import errors
+    from pybtex.database import parse_string
+    from pybtex.plugin import find_plugin
+    try:
+        pl = _plugins(by_name)
+        with errors.capture():
+            if len(txts) == 1:
+                bib = parse_string(txts[0], pl['bib_format'])
+            else:
+                bib = find_plugin('pybtex.database.input', pl['bib_format'])().parse_files([io.StringIO(t) for t in txts])
+        kw = dict((k, v) for k, v in pl['kw'].items() if k != 'bib_format')
+        style = find_plugin('pybtex.style.formatting', pl['style'])(min_crossrefs=m, **kw)
+        with errors.capture() as errs:
+            fb = style.format_bibliography(bib, list(cits))
+            keys = [e.key for e in fb]
+        return {'keys': keys, 'reports': _canon_errs(errs)}
+    except Exception as e:  # noqa
+        return compat.pybtex_error_kind(e)
+
+
+def compare_view(io_):
+    """`style_whole` is judged by the oracle only (the model has the engine entry points, which read filtered)"""
+    return dict((k, v) for k, v in io_.items() if k != 'style_whole') if isinstance(io_, dict) else io_
+
+
 def _by_name(case):
     import json
     import zlib
@@ -157,7 +187,8 @@ def impl(case):
     cits, m = case['citations'], case['min_crossrefs']
     bn = _by_name(case)
     return {'unfiltered': _mode(txts, cits, m, False, bn), 'filtered': _mode(txts, cits, m, True, bn),
-            'bibtex': _bibtex_engine(txts, cits, m, bn), 'python': _python_engine(txts, cits, m, bn)}
+            'bibtex': _bibtex_engine(txts, cits, m, bn), 'python': _python_engine(txts, cits, m, bn),
+            'style_whole': _style_whole(txts, cits, m, bn)}
 
 
 def model_out(case, reply):
@@ -396,6 +427,16 @@ def oracle(case, impl_out, reply):
         other = [r for r in e['reports'] if r[0] not in ('missing', 'bad_crossref', 'repeated')]
         if other:
             fails.append('never_crash: %s engine reported something else: %r' % (side, other[:2]))
+    # the Python engine's front end on the database read whole: the entries formatted are exactly the resolved citations that exist
+    sw = impl_out.get('style_whole')
+    if isinstance(sw, str):
+        fails.append('%s: format_bibliography on the whole database raised %s' % ('missing_reported' if spec['missing'] else 'never_crash', sw))
+    elif sw is not None:
+        if _low(sw['keys']) != _low(spec['present']):
+            fails.append('engine_keys: format_bibliography(whole database, %r) formats %r, the property demands %r' % (cits, sw['keys'], spec['present']))
+        miss = [r[1] for r in sw['reports'] if r[0] == 'missing']
+        if _low(miss) != _low(spec['missing']):
+            fails.append('missing_reported: format_bibliography on the whole database reports missing %r, cited keys without an entry are %r' % (miss, spec['missing']))
     return fails
 
 
